@@ -210,7 +210,7 @@ def gen_cases(ctx, pms, rng, per_version):
             return
         # composeinfo
         for version in DV.COMPOSEINFO_VERSIONS:
-            force = ["depth-3", "layered", "layered-product-variant", "all-variant-types", "dashed-top-prefix-of-sibling", "many-variants", None][i % 7]
+            force = ["depth-3", "layered", "layered-product-variant", "all-variant-types", "dashed-top-prefix-of-sibling", "many-variants", "dashed-top-with-children", None][i % 8]
             D = FC.gen_description(rng, force, hostile=False)
             textin, E = DV.composeinfo(D, version, rng)
             case = {"fmt": "composeinfo", "version": version, "document": textin}
@@ -252,6 +252,12 @@ def gen_cases(ctx, pms, rng, per_version):
             D = FT.gen_description(rng, force, hostile=(i % 4 == 0 and version != "0.0"))
             if DV.vt(version) <= (0, 3):
                 prune_id_collisions(D)
+            if version == "0.0":
+                # a pre-productmd file derives the platform list from its section names, where [images-<p>-<arch>] IS the
+                # spelling of platform <p>: a platform literally named '<p>-<arch>' does not exist in that format
+                suffix = "-" + D["tree"]["arch"]
+                D["tree"]["platforms"] = [p for p in D["tree"]["platforms"] if not p.endswith(suffix)]
+                D["images"] = dict((p, t) for p, t in D["images"].items() if not p.endswith(suffix))
             textin, E = DV.treeinfo(D, version, rng)
             case = {"fmt": "treeinfo", "version": version, "document": textin}
             if version == "0.3" and D["tree"]["arch"] == "src":
